@@ -35,7 +35,7 @@ func init() {
 			"written in taped chunks to a simulated FIFO read by the real syslog ingester (plus once at callback level); events (all fields but the timestamp) and forwarded logins must agree; " +
 			"audit record groups are parsed and coalesced with and without the trailing newline; the form is enumerated within each group of runs; " +
 			"non-trivial = the direct path produced at least one event; distinct = distinct (message, padding, chunking, schedule hash)",
-		Quick: 22 * 120, Thorough: 22 * 6000,
+		Quick: 22 * 300, Thorough: 22 * 10000,
 	})
 }
 
